@@ -314,7 +314,7 @@ def run_shard(shard):
         grid = GRID if tier == "thorough" or True else GRID
         if tier == "thorough":
             grid3 = GRID
-        for evs in event_sets(kind, cond, nmax, GRID if nmax == 2 else GRID[:9]):
+        for evs in event_sets(kind, cond, nmax, GRID):
             tied = len({t for t, _ in evs}) < len(evs)
             for polling in polls():
                 for burst in ("same-callback", "separate-iterations") if tied else ("same-callback",):
